@@ -381,6 +381,18 @@ class C01(ClientProp):
             out.append(one(rng, 1, ch, zone=z, t0=t0))
         for ch in chunks(grid_type2_ops(Ctx("quick", ctx.seed), rng), 20):
             out.append(one(rng, 2, ch))
+        # every length of a login reply that carries a session id (12 bytes and more), for an operation of each kind: what the
+        # client writes after it must be well-formed whatever else the reply does or does not hold
+        sweep1, sweep2 = [], []
+        for n in list(range(12, 61)) + [64, 100, 255, 256, 1023, 1024]:
+            sweep1.append({"op": "control_device", "a": {"on": 1, "minutes": 5}, "replies": [login(rng, n), ack(rng)]})
+            sweep1.append({"op": "get_state", "a": {}, "replies": [login(rng, n), state1(rng)]})
+            sweep2.append({"op": "set_position", "a": {"pos": 30}, "replies": [login(rng, n), ack(rng)]})
+            sweep2.append({"op": "get_shutter_state", "a": {}, "replies": [login(rng, n), shutter(rng)]})
+        for ch in chunks(sweep1, 22):
+            out.append(one(rng, 1, ch, zone=z, t0=t0))
+        for ch in chunks(sweep2, 22):
+            out.append(one(rng, 2, ch))
         # names around the 32-byte limit in scripts whose characters take 1..4 bytes (always part of the run)
         edge = []
         for ch_, nb in ((0x5D0, 2), (0x4E2D, 3), (0x1F600, 4), (0xE9, 2), (0x61, 1)):
@@ -512,6 +524,16 @@ class C03(ClientProp):
             order = [rng.randrange(2) for _ in range(40)]
             out.append({"zone": rng.choice(ZONES_ALL), "t0": t0_pre2038(rng), "inst": inst, "ops": ops, "order": order})
         out += slow_device_scenarios(ctx, rng, self._any_op)
+        # every length of a login reply that carries a session id: the commands of that operation carry those four bytes
+        for api in (1, 2):
+            ops = []
+            for n in list(range(12, 61)) + [64, 100, 255, 256, 1023, 1024]:
+                o = self._any_op(rng, api)
+                if o["replies"] and o["replies"][0].get("t") == "login":
+                    o["replies"][0] = login(rng, n)
+                ops.append(o)
+            for ch in chunks(ops, 20):
+                out.append(one(rng, api, ch, t0=t0_pre2038(rng)))
         out += self.tlc_scripts(ctx, ctx.pick(300, 5000))
         return out
 
